@@ -15,14 +15,17 @@ import (
 	"strings"
 
 	"verif/tools/internal/cw"
+	"verif/tools/internal/sched"
 )
 
 type config struct {
+	prop     string
 	seed     int64
 	n        int
 	outDir   string
 	thorough bool
 	replay   string
+	slow     int
 }
 
 type monitor struct {
@@ -62,6 +65,7 @@ type Case struct {
 	Class   string
 	Input   []int64
 	Comment string
+	Obs     []int64                                 // when set, the implementation was already run by the generator
 	Check   func(obs []int64) (kind, detail string) // kind == "" means fine
 }
 
@@ -71,6 +75,11 @@ type Entry struct {
 	Name string
 	Eval func(in []int64) []int64
 	Gen  func(cfg config, emit func(Case))
+	// Isolated entries are evaluated in worker sub-processes: a panic in a library
+	// goroutine (which would take the whole process down) is then just the outcome [-7]
+	// of that case, and cases run in parallel.
+	Isolated bool
+	Workers  int
 }
 
 var properties = map[string][]*Entry{}
@@ -81,15 +90,30 @@ func runEntries(cfg config, prop string, entries []*Entry) {
 	hist := map[string]int{}
 	for _, e := range entries {
 		w := cw.New(cfg.outDir, e.Name)
-		e.Gen(cfg, func(c Case) {
-			obs := e.Eval(c.Input)
+		record := func(c Case, obs []int64) {
 			w.Add(c.Class, c.Input, obs, c.Comment)
 			if c.Check != nil {
 				if kind, detail := c.Check(obs); kind != "" {
 					mon.FailE(e.Name, kind, c.Input, obs, detail)
 				}
 			}
-		})
+		}
+		if e.Isolated {
+			var cases []Case
+			e.Gen(cfg, func(c Case) { cases = append(cases, c) })
+			outs := evalIsolated(prop, e, cases, cfg)
+			for i, c := range cases {
+				record(c, outs[i])
+			}
+		} else {
+			e.Gen(cfg, func(c Case) {
+				obs := c.Obs
+				if obs == nil {
+					obs = e.Eval(c.Input)
+				}
+				record(c, obs)
+			})
+		}
 		w.Close()
 		total += w.N
 		for k, v := range w.Hist {
@@ -128,7 +152,11 @@ func replayEntries(cfg config, entries []*Entry) {
 		}
 		for _, e := range entries {
 			if e.Name == name {
-				fmt.Println(intsToString(e.Eval(in)))
+				if e.Isolated {
+					fmt.Println(intsToString(evalIsolated(cfg.prop, e, []Case{{Input: in}}, cfg)[0]))
+				} else {
+					fmt.Println(intsToString(e.Eval(in)))
+				}
 			}
 		}
 	}
@@ -155,7 +183,14 @@ func main() {
 	fs.StringVar(&cfg.outDir, "out", "build/run", "output directory")
 	fs.BoolVar(&cfg.thorough, "thorough", false, "thorough tier")
 	fs.StringVar(&cfg.replay, "replay", "", "replay file")
+	fs.IntVar(&cfg.slow, "slow", 1, "multiply every grace period (re-check of a disagreement)")
 	_ = fs.Parse(os.Args[2:])
+	sched.Slow = cfg.slow
+	if name == "__worker" {
+		workerMain(os.Args[2:])
+		return
+	}
+	cfg.prop = name
 	entries, ok := properties[name]
 	if !ok {
 		fmt.Fprintln(os.Stderr, "unknown property harness:", name)
